@@ -517,4 +517,14 @@ Section RT.
     intros s top x e Hl Hok Hw He. unfold jimport. rewrite (json_roundtrip s top x e Hl Hok He). cbn [rbind].
     rewrite (export_exact s x false Upsert); [reflexivity | discriminate | exact Hl | exact Hw].
   Qed.
+
+  (** on a schema without choices the re-imported tree is the export itself *)
+  Corollary roundtrip_same_tree : forall s top d e,
+    cfree s = true -> is_leaf s = false ->
+    rt_ok s (visit false s d) = true -> wfd s (visit false s d) = true ->
+    enode cfg idmod top s (visit false s d) = Some e ->
+    jimport s (rd e) = ROk (Ok (visit false s d)).
+  Proof.
+    intros s top d e Hc Hl Hok Hw He. rewrite (json_import s top _ e Hl Hok Hw He). now rewrite visit_idem.
+  Qed.
 End RT.
